@@ -53,6 +53,7 @@ def check(run, prog, tier):
     run.rule("C19-J", "every comparison of the storage resolution with a constant names one of the five resolutions", minimum=20)
     run.rule("C19-K", "views are handed out under their own type; adding data or taking a view restores the data flag", minimum=3)
     rule_I(run, prog, m)
+    rule_I2(run, prog, m)
     rule_J(run, prog, m)
     rule_K(run, prog, m)
     run.extra["exhaustive"] = True
@@ -352,6 +353,43 @@ def rule_I(run, prog, m):
         run.obligation(rid, "twod2.twodspectrum_dictionary.setter", id(r_) not in dead_ids, key="refusal-reachable:" + norm(r_.test)[:50],
                        message="the refusal 'if %s: raise' of the setter follows a raise in the same block and can never run" % norm(r_.test)[:80],
                        loc=fac.loc(r_), sample={"test": norm(r_.test)[:80]})
+
+
+def rule_I2(run, prog, m):
+    """The refusal of the setter sees what is assigned.  A second addition to a cell assigns `odata + data`: numpy broadcasts
+    an array of another shape (a row, a column, a scalar array) into the stored one, the sum has the right shape and is
+    accepted - the same array as a first addition is refused.  So wherever the adding routine stores a sum of the stored
+    array and its argument, the argument itself passes a shape refusal first: an `if` that reads the shape of the
+    argument together with the lengths of both axes and raises, placed before the branch over the resolutions (in the
+    adding routine or in the wrapper that delegates to it)."""
+    rid = "C19-I"
+    base = prog.cls(T2 + ".TwoDSpectrumBase")
+    f = base.methods["_add_data_to_cell"]
+    wrap = base.methods["_add_data"]
+    prog.consulted.add(f.relpath)
+    par = f.node.args.args[1].arg
+    sums = [n for n in ast.walk(f.node) if isinstance(n, ast.Assign) and norm(n.targets[0]) == "self.d__data"
+            and isinstance(n.value, ast.BinOp) and any(isinstance(y, ast.Name) and y.id == par for y in ast.walk(n.value))]
+    if len(sums) < 5:
+        raise AnalysisError("_add_data_to_cell: %d accumulating stores found (5 confirmed)" % len(sums))
+
+    def refusal(fn, p_):
+        for st in fn.node.body:
+            if isinstance(st, ast.If) and any(isinstance(x, ast.Raise) for x in st.body):
+                t_ = norm(st.test)
+                if "shape" in t_ and p_ in {y.id for y in ast.walk(st.test) if isinstance(y, ast.Name)} \
+                        and "xaxis.length" in t_ and "yaxis.length" in t_:
+                    return st
+        return None
+    r_ = refusal(f, par) or refusal(wrap, wrap.node.args.args[1].arg)
+    first_branch = min([n.lineno for n in sums])
+    ok = r_ is not None and (r_.lineno < first_branch or r_ in wrap.node.body)
+    for st in sums:
+        run.obligation(rid, f.short, ok, key="argument-shape-refused:" + str(sums.index(st)),
+                       message="%s stores `%s` and no refusal looks at the shape of `%s` itself: an array that does not have the "
+                               "shape of the axes is broadcast into the stored one by the sum (the setter sees only the sum, which "
+                               "fits) - the same array is refused when it is the first addition to the cell"
+                               % (f.short, norm(st.value), par), loc=f.loc(st), sample={"store": norm(st)})
 
 
 def rule_J(run, prog, m):
